@@ -256,3 +256,11 @@ func (d *RecDS) Attempts() int {
 	defer d.mu.Unlock()
 	return d.attempts
 }
+
+// HdrCommits returns the number of flush commits (commits carrying header puts) attempted so far:
+// FailHdrFrom is an index into that sequence.
+func (d *RecDS) HdrCommits() int {
+	d.mu.Lock()
+	defer d.mu.Unlock()
+	return d.hdrCommits
+}
